@@ -145,6 +145,50 @@ func rgNet(r *rand.Rand) vx.M {
 	return vx.M{"fam": fam, "bits": rgBits(a, plen), "txt": fmt.Sprintf("%s/%d", a.String(), plen)}
 }
 
+// rgNeighbour: the net of the same size right after (or before) n in address order (the prefix read
+// as a number, plus or minus one): the other half of n's supernet, or the adjacent half of the next
+// supernet. ok = false at the ends of the address space.
+func rgNeighbour(r *rand.Rand, n vx.M) (vx.M, bool) {
+	fam := vx.Int(n["fam"])
+	full := 32
+	if fam == 6 {
+		full = 128
+	}
+	src := vx.List(n["bits"])
+	plen := len(src)
+	bits := make([]int, plen)
+	for i, x := range src {
+		bits[i] = vx.Int(x)
+	}
+	up := r.Intn(2) == 0
+	i := plen - 1
+	for ; i >= 0; i-- {
+		if (bits[i] == 0) == up {
+			bits[i] ^= 1
+			break
+		}
+		bits[i] ^= 1
+	}
+	if i < 0 {
+		return nil, false
+	}
+	b := make([]byte, full/8)
+	for i, x := range bits {
+		if x != 0 {
+			b[i/8] |= 1 << (7 - uint(i%8))
+		}
+	}
+	a, _ := netip.AddrFromSlice(b)
+	if a.Is4In6() {
+		return nil, false
+	}
+	txt := fmt.Sprintf("%s/%d", a.String(), plen)
+	if plen == full && !strings.Contains(vx.Str(n["txt"]), "/") {
+		txt = a.String()
+	}
+	return vx.M{"fam": fam, "bits": rgBits(a, plen), "txt": txt}, true
+}
+
 func rgFilter(r *rand.Rand, p int) vx.M {
 	if r.Intn(100) >= p {
 		return rgNoFilter()
@@ -364,14 +408,30 @@ func rgReq(r *rand.Rand, o rgOpts, cfg vx.M, paths []string, clients []vx.M) vx.
 }
 
 // rgVia chooses how the client address reaches the server: RemoteAddr, X-Forwarded-For or
-// X-Real-IP. realip skips private / loopback / link-local addresses in X-Forwarded-For: such
-// clients are only unambiguous through RemoteAddr.
+// X-Real-IP alone, or an X-Forwarded-For chain in which the client is the only public address
+// among private / loopback / link-local proxy hops ("xffchain"; "xrichain": such hops only, the
+// client in X-Real-IP). Which of several public addresses is "the client" is not for C05 to say:
+// such requests are not generated. Clients with a non-public address are only unambiguous through
+// RemoteAddr.
 func rgVia(r *rand.Rand, q vx.M) vx.M {
-	q["via"] = rgPick(r, []string{"remote", "remote", "xff", "xri"})
+	q["via"] = rgPick(r, []string{"remote", "remote", "xff", "xri", "xffchain", "xffchain", "xrichain"})
+	delete(q, "hops")
 	a, err := netip.ParseAddr(rhAddrString(q["ip"]))
 	a = a.Unmap()
 	if err != nil || a.IsPrivate() || a.IsLoopback() || a.IsLinkLocalUnicast() || a.IsUnspecified() {
 		q["via"] = "remote"
+	}
+	if v := vx.Str(q["via"]); v == "xffchain" || v == "xrichain" {
+		hops := []interface{}{}
+		for i := r.Intn(3); i >= 0; i-- {
+			hops = append(hops, rgPick(r, rhHopPool))
+		}
+		at := r.Intn(len(hops) + 1) // the client's place: more often than not behind the hops
+		if r.Intn(2) == 0 {
+			at = len(hops)
+		}
+		hops = append(hops[:at], append([]interface{}{"*"}, hops[at:]...)...)
+		q["hops"] = hops
 	}
 	return q
 }
